@@ -111,6 +111,8 @@ type T struct {
 	// Pattern, when set by the property before calling Case, is attached to a
 	// failure of that case (known-finding pattern id); it is reset by Case.
 	Pattern string
+	// ManualCounts: the property reports states/transitions itself (State, Edge).
+	ManualCounts bool
 }
 
 func key(desc string) (uint64, string) {
@@ -164,9 +166,11 @@ func (t *T) Case(desc string, nontrivial bool, run func() (string, *Fail)) {
 		t.careful.Flush()
 	}
 	t.sum.Evaluations++
-	t.sum.States++
-	t.sum.Transitions++
 	t.sum.Traces++
+	if !t.ManualCounts {
+		t.sum.States++
+		t.sum.Transitions++
+	}
 	if nontrivial {
 		if _, ok := t.seen[hv]; !ok {
 			t.seen[hv] = struct{}{}
